@@ -415,6 +415,9 @@ class Enumerated(Type):
         try:
             return self.value_to_data[value]
         except KeyError:
+            if self.has_extension_marker:
+                return None
+
             raise DecodeError(
                 "Expected enumeration value {}, but got '{}'.".format(
                     self.format_values(), value))
@@ -521,6 +524,9 @@ class Choice(Type):
         try:
             member = self.name_to_member[name]
         except KeyError:
+            if self.has_extension_marker:
+                return (None, None)
+
             raise DecodeError(
                 "Expected choice {}, but got '{}'.".format(
                     self.format_names(), name))
